@@ -125,7 +125,8 @@ class Check:
             cov.update(coverage_extra)
         ev = {"property_id": self.pid, "tier": self.tier, "seed": self.seed, "level": self.level,
               "coverage": cov, "wall_s": round(wall, 2),
-              "result": "violation" if self.violations else "pass"}
+              "result": "violation" if self.violations else "pass",
+              "violations": len(self.violations), "assumptions": assumptions_of(self.pid)}
         os.makedirs(EVID, exist_ok=True)
         with open(os.path.join(EVID, self.pid + ".json"), "w") as f:
             json.dump(ev, f, indent=1, default=str)
@@ -137,6 +138,19 @@ class Check:
             self.pid, "FAIL" if self.violations else "ok", self.tier, self.seed,
             self.evaluations, len(self.distinct), wall))
         return 1 if self.violations else 0
+
+
+def assumptions_of(pid):
+    """the trusted base stated for this check in MANIFEST.json (level_note), repeated in the evidence"""
+    try:
+        with open(os.path.join(VERIF, "MANIFEST.json")) as f:
+            m = json.load(f)
+        for c in m.get("checks", []):
+            if c.get("property_id") == pid:
+                return [c.get("level_note", "")]
+    except (OSError, ValueError):
+        pass
+    return []
 
 
 def match_sig(pattern, sig):
